@@ -31,8 +31,14 @@ ClassOf(f) == IF \E i \in DOMAIN Table : f \in Table[i][2]
               ELSE f
 IsSpecies(f) == f \in {"Y(H2)", "Y(O2)", "Y(CH2(S))"}
 
-Init == /\ fields \in {s \in UNION {[1..n -> Universe] : n \in 1..MaxFields} : \A i, j \in DOMAIN s : i # j => s[i] # s[j]}
-        /\ mode \in {"default", "description", "minmax", "finest"}
+DupFree == {s \in UNION {[1..n -> Universe] : n \in 1..MaxFields} : \A i, j \in DOMAIN s : i # j => s[i] # s[j]}
+\* headers with a REPEATED field name (legal: the reader numbers the repeats name_2, name_3 ...): the first name once or twice more,
+\* right behind it or at the end; only the min/max tables are specified for them (one row per header field, by position)
+WithRepeat == {<<s[1]>> \o s : s \in {q \in DupFree : Len(q) < MaxFields}}
+              \cup {s \o <<s[1]>> : s \in {q \in DupFree : Len(q) < MaxFields /\ Len(q) >= 2}}
+              \cup {<<s[1], s[1]>> \o s : s \in {q \in DupFree : Len(q) + 2 <= MaxFields}}
+Init == /\ \/ (fields \in DupFree /\ mode \in {"default", "description", "minmax", "finest"})
+           \/ (fields \in WithRepeat /\ mode \in {"minmax", "finest"})
         /\ pc = "classify" /\ listed = <<>> /\ species = <<>> /\ rows = <<>>
 
 \* variables_finder / species_finder
@@ -61,7 +67,7 @@ Next == ClassifyStep \/ TableStep
 Spec == Init /\ [][Next]_vvars /\ WF_vvars(Next)
 
 \* ---- requirement ----
-ListedOnce == pc = "done" =>
+ListedOnce == (pc = "done" /\ fields \in DupFree) =>
   /\ \A i, j \in DOMAIN listed : i # j => listed[i] # listed[j]
   /\ \A k \in DOMAIN fields : Cardinality({i \in DOMAIN listed : listed[i] = ClassOf(fields[k])}) = 1
   /\ \A k \in DOMAIN fields : IsSpecies(fields[k]) => Cardinality({i \in DOMAIN species : species[i] = fields[k]}) = 1
